@@ -484,17 +484,49 @@ func c05Report(c *core.Case, he hclsyntax.Expression, ast *gen.Node, src string,
 	for _, n := range U {
 		cd = append(cd, fmt.Sprintf("%s=%s", n, valStr(conc[n])))
 	}
-	if small.Kind == gen.KCond {
-		// With unknown inputs neither arm can fail, so the arms' types are unified;
-		// concretely the unselected arm fails, its error is discarded and the selected
-		// arm is returned without unification (see known_findings.json).
-		for _, arm := range small.Kids[1:] {
-			as := gen.RenderExpr(arm, &gen.Layout{})
-			if ae, pd := hclsyntax.ParseExpression([]byte(as), "p.hcl", hcl.InitialPos); !pd.HasErrors() {
-				if _, cd2 := ae.Value(ctxWith(conc)); cd2.HasErrors() {
-					c.Violation("unsound/conditional-arm-fails-only-concretely", fmt.Sprintf("program %s (minimal sub-expression: %s)\nconcrete instantiation: %s\n%s", trunc(src, 300), gen.RenderExpr(small, &gen.Layout{}), strings.Join(cd, "; "), msg), nil)
-					return
+	// Is a conditional's special treatment of its arms the root cause? Rewrite
+	// every conditional p ? a : b of the minimal expression as [a, b][p ? 0 : 1]:
+	// both arms are then evaluated like any other operand (an arm that fails
+	// makes the run fail) and the selected arm keeps its own type (no
+	// unification with the other arm). If the inconsistency is gone, it came
+	// from one of the two adjudicated behaviours (known_findings.json).
+	hasCond := false
+	small.Walk(func(n *gen.Node) {
+		if n.Kind == gen.KCond {
+			hasCond = true
+		}
+	})
+	if hasCond {
+		plain := gen.Rewrite(small, func(n *gen.Node) *gen.Node {
+			if n.Kind != gen.KCond {
+				return n
+			}
+			sel := &gen.Node{Kind: gen.KCond, Kids: []*gen.Node{n.Kids[0], gen.Num("0"), gen.Num("1")}, Ty: cty.Number}
+			return &gen.Node{Kind: gen.KIndex, Kids: []*gen.Node{{Kind: gen.KTuple, Kids: []*gen.Node{n.Kids[1], n.Kids[2]}}, sel}, Ty: cty.DynamicPseudoType}
+		})
+		if pe, pd := hclsyntax.ParseExpression([]byte(gen.RenderExpr(plain, &gen.Layout{})), "p.hcl", hcl.InitialPos); !pd.HasErrors() {
+			pa, pad := pe.Value(ctxWith(absVars))
+			pc, pcd := pe.Value(ctxWith(conc))
+			class := ""
+			switch {
+			case pcd.HasErrors() && !pad.HasErrors():
+				class = "unsound/conditional-arm-fails-only-concretely"
+			case !pcd.HasErrors() && !pad.HasErrors():
+				pa, pc = unmarked(pa), unmarked(pc)
+				okc := true
+				if !pa.Type().Equals(pc.Type()) {
+					var err error
+					if pa, err = convert.Convert(pa, pc.Type()); err != nil {
+						okc = false
+					}
 				}
+				if okc && consistent(pa, pc, "") == "" {
+					class = "unsound/conditional-type-from-unselected-arm"
+				}
+			}
+			if class != "" {
+				c.Violation(class, fmt.Sprintf("program %s (minimal sub-expression: %s)\nconcrete instantiation: %s\n%s", trunc(src, 300), gen.RenderExpr(small, &gen.Layout{}), strings.Join(cd, "; "), msg), nil)
+				return
 			}
 		}
 	}
